@@ -147,15 +147,22 @@ def run_shard(shard, ctx):
         W = W0.copy()
         W[:, 1:] *= eps
         cond = None
-        for conv in ("single", "paired"):
+        for conv in ("single", "paired", "single_replaced"):
+            if conv == "single_replaced" and eps not in (1.0, 0.1):
+                continue
             if not ctx.case(dict(eps=eps, conv=conv)):
                 continue
             facts = dict(eps=eps, conv=conv)
             with ctx.guard("hetero.construct", facts) as g:
-                cond = LINKS[link](M=J(M[None]), b=J(b[None]), A=J(A[None]), W=J(W))
+                if conv == "single_replaced":
+                    # reached from elsewhere: another instance whose A and W are then replaced (dataclass replace)
+                    other = LINKS[link](M=J(M[None]), b=J(b[None]), A=J((A * 1.7 + 0.3)[None]), W=J(W * 0.5))
+                    cond = other.replace(A=J(A[None]), W=J(W))
+                else:
+                    cond = LINKS[link](M=J(M[None]), b=J(b[None]), A=J(A[None]), W=J(W))
             if not g.ok:
                 continue
-            if conv == "single":
+            if conv in ("single", "single_replaced"):
                 # ---- (i) condition_on_x -----------------------------------------------------
                 X = al.points(3, Dx, salt=vi + 1)
                 with ctx.guard("hetero.condition_on_x.call", facts) as g:
